@@ -340,8 +340,7 @@ def _matches_short_net_pattern(parts: list[str]) -> bool:
     """
     if len(parts) >= 2 and parts[0] == "net" and parts[1] in _BLOCKING_NET_TYPES:
         return True
-    # `use std::net::TcpStream; ... TcpStream::connect(addr)` (the documented example)
-    return len(parts) >= 2 and parts[0] in _BLOCKING_NET_TYPES
+    return False
 
 
 # Function names that safely wrap blocking operations for async execution
